@@ -281,6 +281,17 @@ static void run(int from, int to) {
         else if (!strcmp(c, "unlink")) { int r = unlink(a[1]); say("unlink %s = %d\n", a[1], r < 0 ? -errno : 0); }
         else if (!strcmp(c, "writefile")) { int fd = open(a[1], O_WRONLY | O_CREAT | O_TRUNC, 0644); int r = fd < 0 ? -errno : (int)write(fd, a[2], strlen(a[2])); say("writefile %s = %d\n", a[1], r); if (fd >= 0) close(fd); }
         else if (!strcmp(c, "readfile")) { char b[256]; int fd = open(a[1], O_RDONLY); int r = fd < 0 ? -errno : (int)read(fd, b, sizeof b - 1); if (r >= 0) { b[r] = 0; say("readfile %s = %d %s\n", a[1], r, b); } else say("readfile %s = %d\n", a[1], r); if (fd >= 0) close(fd); }
+        else if (!strcmp(c, "grow")) { /* grow PATH N: append N bytes to a regular file in 4 KiB writes */
+            int fd = open(a[1], O_WRONLY | O_CREAT | O_APPEND, 0644);
+            long n = num(a[2]), done = 0; static char gb[4096]; memset(gb, 'g', sizeof gb);
+            int e = fd < 0 ? errno : 0;
+            while (fd >= 0 && done < n) { ssize_t w = write(fd, gb, n - done > 4096 ? 4096 : n - done); if (w < 0) { e = errno; break; } done += w; }
+            say("grow %s wrote=%ld err=%d\n", a[1], done, e);
+            if (fd >= 0) close(fd);
+        }
+        else if (!strcmp(c, "mem")) { /* mem MB: allocate and touch */
+            long mb = num(a[1]); char *p = malloc(mb << 20); if (p) { for (long k = 0; k < (mb << 20); k += 4096) p[k] = 1; } say("mem %ld %s\n", mb, p ? "ok" : "fail");
+        }
         else if (!strcmp(c, "out")) {
             long n = num(a[1]);
             static char buf[65536];
